@@ -81,8 +81,9 @@ ASSUMPTIONS = [
     "a call on axes that already hold a plot is judged on what it adds and on the limits / labels / title in force after it: "
     "artists of earlier calls may stay as they are (their points need not lie inside the new limits), the legend of an "
     "overlay must list at least the labels of the call that created it (and the infinity entry if that call drew infinite "
-    "deaths), any horizontal line on the axes strictly inside the limits counts as an infinity line; the model is compared "
-    "with the artists the call added",
+    "deaths), any horizontal line on the axes strictly inside the limits counts as an infinity line (minus one line at 0 "
+    "per lifetime-mode call drawn there: the horizons); the other panel of the figure may hold what earlier steps "
+    "drew THERE, the call must not add to it or relabel it; the model is compared with the artists the call added",
 ]
 COQ_DEPS = ["Corr/SceneCorr.vo"]
 INF = float("inf")
